@@ -1,6 +1,7 @@
 package checks
 
 import (
+	"bytes"
 	"encoding/json"
 	"errors"
 	"fmt"
@@ -534,7 +535,7 @@ func c10Eff(f c10Fault) string {
 }
 
 func runC10(c *evid.Ctx) {
-	c.Rule("for each generated adaptive workload the golden run numbers every VFS/MetaStore call; the workload is then re-executed once per (call, before-effect | after-effect (the write/sync/create/delete/commit happened but an error is returned), once | sticky within the call | persistent over the next 1-4 API calls) with that call failing, continues with further successful operations, and ends with a clean reopen; oracle: in-process acknowledged entries intact and failed appends invisible after every step, after the reopen the state equals the model under some applied/not-applied assignment of the calls that returned errors; thorough adds pairs of failing calls; non-trivial = distinct (call kind, API call it hit, effect, persistence) classes that reached the final reopen",
+	c.Rule("for each generated adaptive workload the golden run numbers every VFS/MetaStore call; the workload is then re-executed once per (call, before-effect | after-effect (the write/sync/create/delete/commit happened but an error is returned), once | sticky within the call | persistent over the next 1-4 API calls) with that call failing, continues with further successful operations, and ends with a clean reopen; oracle: in-process acknowledged entries intact and failed appends invisible after every step, after the reopen the state equals the model under some applied/not-applied assignment of the calls that returned errors; thorough adds pairs of failing calls; plus directed scripts of shrinking retries (two StoreLogs calls for the same indexes fail on Sync / WriteAt, a third, shorter one succeeds; payload sizes enumerated so that leftovers line up with frame boundaries) followed by a clean reopen; non-trivial = distinct (call kind, API call it hit, effect, persistence) classes that reached the final reopen",
 		"faulted_runs", "fault_classes")
 	c.Assume("simmeta commits are atomic; an error from CommitState/SetStable 'after effect' means the commit is durable", "refusal of further writes after a fault is not counted against the property")
 	if c.Replay != "" {
@@ -619,5 +620,124 @@ func runC10(c *evid.Ctx) {
 	}
 	close(jobs)
 	wg.Wait()
+	c10ShrinkingRetries(c)
 	_ = errors.Is
+}
+
+// ---- shrinking retries under a persistent fault ----
+
+// c10NextN fails the next n calls of one kind on one file class, before or after effect.
+type c10NextN struct {
+	kind  simfs.Kind
+	after bool
+	n     int
+}
+
+func (h *c10NextN) Pre(d *simfs.Disk, cl simfs.Call) error {
+	if h.n > 0 && !h.after && cl.Kind == h.kind {
+		h.n--
+		return simfs.ErrInjected
+	}
+	return nil
+}
+func (h *c10NextN) Mid(d *simfs.Disk, cl simfs.Call) {}
+func (h *c10NextN) Post(d *simfs.Disk, cl simfs.Call) error {
+	if h.n > 0 && h.after && cl.Kind == h.kind {
+		h.n--
+		return simfs.ErrInjected
+	}
+	return nil
+}
+
+// c10ShrinkingRetries: what raft does when its disk misbehaves for a while - the same
+// indexes are submitted again and again, in batches that get shorter, until one succeeds.
+// Two StoreLogs calls fail (the Sync, or the WriteAt, fails before or after its effect),
+// the third one succeeds; entry payload sizes are enumerated over a set whose frame sizes
+// differ by exactly one commit frame, so that leftovers of the failed batches line up with
+// frame boundaries behind the successful one. After a clean reopen the log must be exactly
+// the acknowledged entries.
+func c10ShrinkingRetries(c *evid.Ctx) {
+	sizes := []int{20, 28}
+	if !quick(c) {
+		sizes = []int{12, 20, 28, 36}
+	}
+	type fk struct {
+		kind  simfs.Kind
+		after bool
+		name  string
+	}
+	faults := []fk{{simfs.KSync, false, "Sync-before"}, {simfs.KSync, true, "Sync-after"}, {simfs.KWriteAt, true, "WriteAt-after"}}
+	var combos [][6]int
+	var rec func(pre []int)
+	rec = func(pre []int) {
+		if len(pre) == 6 {
+			var a [6]int
+			copy(a[:], pre)
+			combos = append(combos, a)
+			return
+		}
+		for _, s := range sizes {
+			rec(append(pre, s))
+		}
+	}
+	rec(nil)
+	for _, f := range faults {
+		for _, cb := range combos {
+			disk := simfs.New(simfs.Strict)
+			h := &c10NextN{kind: f.kind, after: f.after}
+			disk.SetHook(h)
+			w, err := drv.OpenSim(disk, drv.Cfg{SegSize: 4096})
+			if err != nil {
+				c.Violation("C10:open", err.Error(), nil)
+				return
+			}
+			l := model.NewLog()
+			mk := func(first uint64, szs []int, tag string) []*raft.Log {
+				var out []*raft.Log
+				for i, s := range szs {
+					out = append(out, &raft.Log{Index: first + uint64(i), Term: 1, Type: raft.LogCommand, Data: bytes.Repeat([]byte{byte('a' + len(tag)%20)}, s), Extensions: []byte(tag)})
+				}
+				return out
+			}
+			pre := mk(1, []int{24, 24, 24, 24}, "p")
+			if err := w.StoreLogs(pre); err != nil {
+				c.Violation("C10:append", err.Error(), nil)
+			}
+			l.Append(pre, 0, true)
+			replay := map[string]any{"fault": f.name, "sizes": cb}
+			h.n = 2
+			e1 := w.StoreLogs(mk(5, cb[0:3], "a1"))
+			e2 := w.StoreLogs(mk(5, cb[3:5], "a2x"))
+			h.n = 0
+			a3 := mk(5, cb[5:6], "a3yy")
+			e3 := w.StoreLogs(a3)
+			c.Count("shrinking_retry_scripts", 1)
+			c.Count("faulted_runs", 1)
+			c.Distinct("fault_classes", fmt.Sprintf("shrinking-retries|%s|errs=%v,%v,%v", f.name, e1 != nil, e2 != nil, e3 != nil))
+			if e1 == nil || e2 == nil {
+				// the fault did not hit this call (e.g. WriteAt-after on a path that ignores it): nothing to judge
+				drv.CloseWAL(w)
+				continue
+			}
+			if e3 == nil {
+				l.Append(a3, 3, true)
+			}
+			obs := drv.Observe(w, model.ProbeSet([]uint64{5, 6, 7, 8}, l))
+			if d := l.Diff(obs); d != "" {
+				c.Violation("C10:shrinking-retries:in-process:"+f.name, fmt.Sprintf("after two failed StoreLogs (%s) and a shorter successful one the running process shows: %s", f.name, d), replay)
+			}
+			drv.CloseWAL(w)
+			disk.SetHook(nil)
+			w2, err := drv.OpenSim(disk, drv.Cfg{SegSize: 4096})
+			if err != nil {
+				c.Violation("C10:shrinking-retries:reopen:"+f.name, fmt.Sprintf("clean reopen failed: %v", err), replay)
+				continue
+			}
+			obs2 := drv.Observe(w2, model.ProbeSet([]uint64{5, 6, 7, 8}, l))
+			if d := l.Diff(obs2); d != "" {
+				c.Violation("C10:shrinking-retries:after-reopen:"+f.name, fmt.Sprintf("two StoreLogs calls failed (%s), a shorter one for the same index succeeded; after a clean reopen the log is not the acknowledged entries: %s", f.name, d), replay)
+			}
+			drv.CloseWAL(w2)
+		}
+	}
 }
